@@ -81,6 +81,20 @@ CLAIMED = {
                             "the O(dz) property-lag clause for temperature-dependent coolants is not a theorem."),
         technique="Lean 4 proof (field_simp/ring) over symbolically traced whole-bundle update + per-step reactor oracle",
         design="5/C01"),
+    "C03": dict(
+        text=("Lean theorems over any field about the renormalisation / scaling model: with the corrected per-cell "
+              "renormalisation the sweep deposits exactly avg x cell length in every power cell for ANY step list tiling "
+              "the cell and ANY position of the bundle boundary inside it; the original formula does so only when the "
+              "whole cell is in the bundle and provably deposits a different power otherwise (rational witness); after "
+              "normalisation and scaling the assembly totals sum to requested power x scaling; the renormalisation factor "
+              "is invariant under scaling the profiles, and for every traced interior-update class the heating term is "
+              "homogeneous in the sources (so temperature rises scale with the power).  Real reactors are swept and the "
+              "deposited power is compared with an independent exact rational integration of the CSV polynomials."),
+        note=COMMON_NOTE + ("T3 hand model + per-cell correspondence with AssemblyPower._renorm, plus reuse of the traced "
+                            "update classes of C04 for linearity.  Assumes no clipping of negative samples and a non-zero "
+                            "midpoint sum; VARPOW binary-flux power cannot be exercised here (empty placeholder data)."),
+        technique="Lean 4 proof over hand model (list sums) + correspondence + exact-rational power oracle",
+        design="5/C03"),
     "C04": dict(
         text=("For each of the 26 neighbour-type classes of interior and bypass subchannels (with and without the "
               "low-flow approximation, both swirl-donor positions) a Lean theorem, over any ordered field and all "
